@@ -30,7 +30,10 @@ type genReq struct {
 	// key overrides for the long-lived connection cases ("" = default keys)
 	NoRespKey string `json:"no_resp_key,omitempty"`
 	TruncKey  string `json:"trunc_key,omitempty"`
-	PlanDesc  string `json:"plan"`
+	// key for an answer with this status that is not the backend's (backend never saw the request)
+	ForeignStatus int    `json:"foreign_status,omitempty"`
+	ForeignKey    string `json:"foreign_key,omitempty"`
+	PlanDesc      string `json:"plan"`
 }
 
 var hopByHop = map[string]bool{
@@ -150,13 +153,17 @@ func genRequest(c *h.Case, rc *routeCfg, k int, bigBody int64) *genReq {
 	g.Origin = genTarget(rng)
 	g.Target = g.Origin
 	// Host: as configured, sometimes mixed case / explicit port
-	g.Host = rc.Domain
+	dom := rc.Domain
+	if rc.CatchAll {
+		dom = "placeholder.c02.test" // the catch-all cases choose server name and Host themselves
+	}
+	g.Host = dom
 	switch rng.Intn(6) {
 	case 0:
-		g.Host = strings.ToUpper(rc.Domain[:2]) + rc.Domain[2:]
+		g.Host = strings.ToUpper(dom[:2]) + dom[2:]
 	case 1:
 		if !rc.viaHTTPS() {
-			g.Host = fmt.Sprintf("%s:%d", rc.Domain, topo.Servers[rc.Srv].HTTPPort)
+			g.Host = fmt.Sprintf("%s:%d", dom, topo.Servers[rc.Srv].HTTPPort)
 		}
 	}
 	if !rc.viaHTTPS() && rng.Intn(12) == 0 {
